@@ -89,11 +89,40 @@ Proof.
   - intro H. exists (N.to_nat (x - s)). split; [lia|]. apply in_seq. lia.
 Qed.
 
+Lemma pack8_false n : pack8 (repeat false n) = repeat 0 (Nat.div n 8).
+Proof.
+  induction n as [n IH] using lt_wf_ind.
+  destruct (Nat.ltb n 8) eqn:E.
+  - apply Nat.ltb_lt in E. rewrite Nat.div_small by exact E.
+    do 8 (destruct n as [|n]; [reflexivity|]). lia.
+  - apply Nat.ltb_ge in E. replace n with (8 + (n - 8))%nat at 1 by lia.
+    rewrite repeat_app. cbn [repeat app pack8 b2n]. rewrite IH by lia.
+    replace (Nat.div n 8) with (Datatypes.S (Nat.div (n - 8) 8)); [reflexivity|].
+    replace n with ((n - 8) + 1 * 8)%nat at 2 by lia. rewrite Nat.div_add by lia. lia.
+Qed.
+
+Lemma col_vectors_plain col :
+  col_vectors col = map (fun t => pack8 (map (fun x => N.testbit x t) col)) (nseq 0 8).
+Proof.
+  unfold col_vectors. destruct (forallb (N.eqb 0) col) eqn:E; [|reflexivity].
+  assert (H : forall t, map (fun x => N.testbit x t) col = repeat false (length col)).
+  { intro t. rewrite forallb_forall in E. clear - E. induction col as [|x r IH]; [reflexivity|].
+    cbn [map length repeat]. rewrite IH by (intros y Hy; apply E; right; exact Hy).
+    assert (Hx : (0 =? x) = true) by (apply E; left; reflexivity). apply N.eqb_eq in Hx. subst x. reflexivity. }
+  change (nseq 0 8) with [0; 1; 2; 3; 4; 5; 6; 7]. cbn [map repeat]. rewrite !H, pack8_false. reflexivity.
+Qed.
+
+Lemma gen_vectors_plain blooms :
+  gen_vectors blooms =
+  flat_map (fun col => map (fun t => pack8 (map (fun x => N.testbit x t) col)) (nseq 0 8))
+           (rev (columns (N.to_nat BloomByteLength) blooms)).
+Proof. unfold gen_vectors. apply flat_map_ext. intro col. apply col_vectors_plain. Qed.
+
 (** vector [i] of the generator is the packed column of bit [i] of the section's blooms *)
 Theorem gen_vectors_nth blooms i : i < BloomBitLength ->
   nth (N.to_nat i) (gen_vectors blooms) [] = pack8 (map (fun b => bloom_bit b i) blooms).
 Proof.
-  intro Hi. unfold gen_vectors, BloomBitLength in *.
+  intro Hi. rewrite gen_vectors_plain. unfold BloomBitLength in *.
   set (cols := columns (N.to_nat BloomByteLength) blooms).
   assert (Hc : length (rev cols) = 256%nat) by (rewrite rev_length; unfold cols; rewrite columns_length; reflexivity).
   rewrite (nth_flat_map_chunks (A:=list N) (B:=bytes) _ 8 [] []);
@@ -117,7 +146,7 @@ Qed.
 
 Lemma gen_vectors_length blooms : length (gen_vectors blooms) = N.to_nat BloomBitLength.
 Proof.
-  unfold gen_vectors.
+  rewrite gen_vectors_plain.
   assert (H : forall l : list bytes, length (flat_map (fun col => map (fun t => pack8 (map (fun x => N.testbit x t) col)) (nseq 0 8)) l) = (8 * length l)%nat).
   { induction l as [|a r IH]; [reflexivity|]. cbn [flat_map length]. rewrite app_length, IH, map_length, nseq_length. lia. }
   rewrite H, rev_length, columns_length. reflexivity.
